@@ -8,24 +8,65 @@ import (
 	"github.com/stretchr/testify/require"
 )
 
-// Demonstrates F-C10-b (recorded, not repaired).  The meta-entry WAL is rewritten by
-// Wal.Write = truncate() + writeBlockToFile().  The test performs the first Write
-// completely, then executes exactly the first step of the second Write (the real
-// truncate()) and stops, which is the state a crash between the two steps leaves.
-// Replay then yields no entry at all, although an append had completed before.
+// observingEncoder looks at the live WAL file at the moment Wal.Write asks it to encode
+// the new content, i.e. at a point inside Write where the process may die.
+type observingEncoder struct {
+	MetricsMetaEncoder
+	t       *testing.T
+	path    string
+	observe bool
+}
+
+func (e *observingEncoder) PrepareEncode(input any) ([]byte, error) {
+	if e.observe {
+		it, err := NewMetricsMetaEntryWalReader(e.path)
+		require.NoError(e.t, err)
+		entry, err := it.Next()
+		_ = it.Close()
+		require.NoError(e.t, err)
+		require.NotNil(e.t, entry, "inside the second Wal.Write the live log holds no entry: a crash here loses the meta entry whose log write had completed")
+	}
+	return e.MetricsMetaEncoder.PrepareEncode(input)
+}
+
+// Demonstrates F-C10-b.  Before the repair Wal.Write was truncate() + writeBlockToFile() on the
+// live file: between the two steps (where the new block is encoded) the log was empty, so a
+// crash, or a failing second write, lost the entry whose write had completed.  With the repair
+// the new content is built in a temporary file and renamed over the log.
 func Test_Finding_C10b_CrashInsideWalWrite(t *testing.T) {
 	path := filepath.Join(t.TempDir(), "mentry.wal")
-	w, err := NewWAL(path, &MetricsMetaEncoder{})
+	enc := &observingEncoder{t: t, path: path}
+	w, err := NewWAL(path, enc)
 	require.NoError(t, err)
 	require.NoError(t, w.Write([]*structs.MetricsMeta{{MSegmentDir: "seg-1", NumBlocks: 3}}))
 
-	// second Write starts ... and the process dies after its first step
-	require.NoError(t, w.truncate())
+	// the state of the live log at a crash point inside the second Write
+	enc.observe = true
+	require.NoError(t, w.Write([]*structs.MetricsMeta{{MSegmentDir: "seg-1", NumBlocks: 4}}))
+	enc.observe = false
 
+	// a second Write that fails must leave the completed one replayable
+	require.Error(t, w.Write("not meta entries"))
 	it, err := NewMetricsMetaEntryWalReader(path)
 	require.NoError(t, err)
 	defer it.Close()
 	entry, err := it.Next()
 	require.NoError(t, err)
-	require.NotNil(t, entry, "the meta entry whose log write had completed is gone after a crash inside the next Wal.Write")
+	require.NotNil(t, entry, "the meta entry whose log write had completed is gone after a failed Wal.Write")
+
+	// and the handle keeps working after the rename
+	require.NoError(t, w.Write([]*structs.MetricsMeta{{MSegmentDir: "seg-1", NumBlocks: 5}, {MSegmentDir: "seg-2", NumBlocks: 1}}))
+	it2, err := NewMetricsMetaEntryWalReader(path)
+	require.NoError(t, err)
+	defer it2.Close()
+	n := 0
+	for {
+		e, err := it2.Next()
+		if err != nil || e == nil {
+			break
+		}
+		n++
+	}
+	require.Equal(t, 2, n)
+	require.NoError(t, w.DeleteWAL())
 }
